@@ -1,6 +1,7 @@
 package isobmff
 
 import (
+	"bufio"
 	"io"
 
 	"github.com/evanoberholster/imagemeta/meta"
@@ -37,6 +38,11 @@ func (b *box) Peek(n int) ([]byte, error) {
 // Discard advances the reader. Is limited by the
 // constrains of the box.
 func (b *box) Discard(n int) (int, error) {
+	if n < 0 {
+		// a forward-only view: a negative count would enlarge what this box and
+		// every box around it believe to be left before the reader refuses it
+		return 0, bufio.ErrNegativeCount
+	}
 	if b.remain >= n {
 		b.remain -= n
 		if b.outer != nil {
